@@ -480,8 +480,12 @@ def boxShadowSeg (seg : List Tok) : List Tok :=
       else (seg, idx)
     if idx.length == 3 && isZero (seg.getD (idx.getD 2 0) default) then eraseIdx seg (idx.getD 2 0) else seg
 
+/-- the per-token rewrite of `border-color`: `currentcolor` → `initial`, otherwise colour shortening -/
+def borderColorTok (t : Tok) : Tok :=
+  if identOf t == S "currentcolor" then Tok.mk .ident (S "initial") t.args else minifyColor t
+
 def minifyBorderColor (vs : List Tok) : List Tok :=
-  let vs' := vs.map fun t => if identOf t == S "currentcolor" then Tok.mk .ident (S "initial") t.args else minifyColor t
+  let vs' := vs.map borderColorTok
   match vs' with
   | a :: r => if r.all (fun t => a == t) then [a] else vs'
   | [] => []
